@@ -133,8 +133,12 @@ Termination == <>Done
 (***************************************************************************)
 Plants == {[cls |-> "regular", code |-> c] : c \in AllCodes} \cup {[cls |-> "regular2", code |-> c] : c \in AllCodes}
           \cup {[cls |-> "test", code |-> "IMM02"], [cls |-> "tdpath", code |-> "CTOR01"], [cls |-> "genpath", code |-> "TONL02"]}
+          \* violations that the source itself suppresses with one `@ignore IMM01, CTOR01` / `@ignore TONL, PKGO02` directive each:
+          \* they are invisible under every configuration (excluding one of the codes project-wide does not revive the other)
+          \cup {[cls |-> "ignored", code |-> c] : c \in {"IMM01", "CTOR01", "TONL02", "PKGO02"}}
 
-Skip(cls, c) == \/ cls = "test" /\ ~c.scan
+Skip(cls, c) == \/ cls = "ignored"
+                \/ cls = "test" /\ ~c.scan
                 \/ cls = "tdpath" /\ "testdata" \in c.paths
                 \/ cls = "genpath" /\ "zzgen" \in c.paths
 Excluded(code, c) == \E t \in c.checks : Matches(t, code)
